@@ -56,6 +56,6 @@ out = (src.replace("@@PERPROP@@", per.strip()).replace("@@FIXES@@", "\n".join(fi
        .replace("@@SEEDS@@", "\n".join(seeds)).replace("@@SEEDS2@@", "\n".join(seeds2)).replace("@@SEEDS3@@", "\n".join(seeds3)).replace("@@SEEDS4@@", "\n".join(seeds4)).replace("@@SEEDS5@@", "\n".join(seeds5)).replace("@@SEEDS6@@", "\n".join(seeds6)).replace("@@CORRECTIONS@@", corr).replace("@@COVERAGE@@", open(os.path.join(V, "docs_src/coverage.md")).read().strip())
        .replace("@@MODEL_LINES@@", str(sum(len(open(f).read().split("\n")) for f in model)))
        .replace("@@NPROPTHM@@", str(count(r"^(theorem|example)", props))).replace("@@NLEMMA@@", str(count(r"^theorem", proofs)))
-       .replace("@@NFIX@@", str(len(kf["fixed"]))))
+       .replace("@@NFIX@@", str(len({f["commit"] for f in kf["fixed"]}))))
 open(os.path.join(V, "DESIGN.md"), "w").write(out)
 print("DESIGN.md written,", len(out.split("\n")), "lines")
